@@ -155,7 +155,7 @@ def run_spec(spec, seed=0):
     """Generic per-configuration driver used by harnesses: compile, explore, validate. Returns a JSON-able dict."""
     t0 = time.time()
     model = Model(spec.build)
-    deadline = t0 + spec.time_budget
+    deadline = time.time() + spec.time_budget      # the budget covers exploration only, not elaboration/compilation
     res = bfs(model, spec, seed, deadline)
     # confirm violations deterministically and validate their traces too
     vpaths = [v["path"] for v in res["violations"]]
